@@ -6,7 +6,7 @@
 EXTENDS Integers, Sequences, FiniteSets, TLC, Json
 CONSTANTS ConstPool,    \* set of constant-label maps (as sets of <<k, v>>)
           LabelPool,    \* set of variable-label name lists
-          BucketPool    \* set of bucket lists (sequences of integers, scaled by the harness); <<>> = defaults
+          BucketPool    \* set of bucket lists (sequences of integers scaled by the harness, or the string "inf"); <<>> = defaults
 Scalars == {"counter", "int_counter", "gauge", "int_gauge"}
 Vecs == {"counter_vec", "int_counter_vec", "gauge_vec", "int_gauge_vec"}
 AllMacros == Scalars \cup Vecs \cup {"histogram", "histogram_vec"}
